@@ -31,7 +31,9 @@
 (***************************************************************************)
 EXTENDS Naturals, Sequences, FiniteSets, TLC
 
-CONSTANTS Cfgs,        \* endpoint configurations: [id, main, allowed, ping, speed, rproxy : sets of names, quic : BOOLEAN]
+CONSTANTS Cfgs,        \* endpoint configurations: [id, main, allowed, ping, speed, rproxy : sets of names, quic : BOOLEAN,
+                       \*   origin : "none" | "up" | "down"  (reverse_proxy settings present; its origin server accepts / refuses),
+                       \*   speedtest : BOOLEAN               (speedtest_enable: /speed/ paths leave the tunnel channel)]
           Scenarios    \* the scenarios quantified over (records, see MCSecrets)
 
 Creds       == "@creds"      \* the credentials label a client puts in front of a main host
@@ -97,8 +99,28 @@ SecretNames == { "proxy-authorization", "authorization", "cookie" }
 ScrubRequest(hs) == [ i \in DOMAIN hs |-> IF hs[i].name \in SecretNames THEN [hs[i] EXCEPT !.val = Placeholder] ELSE hs[i] ]
 Vals(hs) == { hs[i].val : i \in DOMAIN hs }
 
+HasUpgrade(hs) == \E i \in DOMAIN hs : hs[i].name = "upgrade"
+
+\* request kinds whose PATH may take them out of the tunnel channel (HttpDemux::select)
+RpKinds    == { "rpGet",          \* GET <path_mask>/hello            (the origin answers, if it is there)
+                "rpGetClose" }    \* GET <path_mask>/close            (the origin closes in the middle of its response head)
+SpeedKinds == { "speedGet",       \* GET /speed/1mb.bin               (download; the client leaves after the head)
+                "speedBad",       \* GET /speed/nothing               (no speed test)
+                "speedUpload" }   \* POST /speed/upload.html, the client ends its body early
+
 PaClasses(hs) == { hs[i].cls : i \in { j \in DOMAIN hs : hs[j].name = "proxy-authorization" } }
 IsPing(hs)    == \E i \in DOMAIN hs : hs[i].name = "x-ping"
+
+\* HttpDemux::select on a connection of the tunnel channel: ping marker, then speedtest path, then the
+\* reverse proxy's path mask (HTTP/3, or HTTP/1.1 with an Upgrade field; never HTTP/2)
+Route(cfg, proto, kind, hs) ==
+    IF IsPing(hs) THEN "ping"
+    ELSE IF cfg.speedtest /\ kind \in SpeedKinds THEN "speed"
+    ELSE IF cfg.origin # "none" /\ kind \in RpKinds /\ (proto = "h3" \/ (proto = "http/1.1" /\ HasUpgrade(hs))) THEN "rproxy"
+    ELSE "tunnel"
+
+\* the channel that serves the request: the connection's own, or where the path takes it
+Served(cfg, proto, kind, hs, channel) == IF channel = "tunnel" THEN Route(cfg, proto, kind, hs) ELSE channel
 
 \* acceptable authentication verdicts (C01 decides them; here only what is not left open is used):
 \* every Proxy-Authorization value valid -> pass; none valid and no SNI authentication -> 407;
@@ -122,13 +144,17 @@ PassStatus(kind) ==
       [] kind = "getOrigin"      -> 502     \* GET /path without an authority: nothing to connect to
       [] kind = "badSyntax"      -> 0       \* not a request at all: see StatusSet
 
-\* 0 = the connection ends without a response
-StatusSet(kind, hs, sniAuthed, channel) ==
+\* 0 = the connection / stream ends without a response
+StatusSet(cfg, proto, kind, hs, sniAuthed, channel) ==
+    LET served == Served(cfg, proto, kind, hs, channel) IN
     IF kind = "badSyntax" THEN { 0, 400, 502 }
-    ELSE IF channel = "ping" \/ IsPing(hs) THEN { 200 }
-    ELSE IF channel = "speed" THEN { 400 }                                           \* none of the kinds here is a speed test
-    ELSE IF channel = "rproxy" THEN { 200 }                                          \* the origin answers
-    ELSE IF kind = "getOrigin" THEN { 400, 407, 502 }                                \* C10 does not cover it: open
+    ELSE IF served = "ping" THEN { 200 }
+    ELSE IF served = "speed" THEN
+        (CASE kind = "speedGet" -> { 200 } [] kind = "speedUpload" -> { 0, 200 } [] OTHER -> { 400 })
+    ELSE IF served = "rproxy" THEN
+        (IF cfg.origin = "down" \/ kind = "rpGetClose" THEN { 0, 502 } ELSE { 200 })     \* "Request failed": nothing is answered
+    \* a service path that stays on the tunnel channel, a request without authority: C10 does not cover them, open
+    ELSE IF kind \in { "getOrigin" } \cup RpKinds \cup SpeedKinds THEN { 0, 400, 407, 502 }
     ELSE { IF v = "pass" THEN PassStatus(kind) ELSE 407 : v \in Verdicts(hs, sniAuthed) }
 
 --------------------------------------------------------------------------
@@ -143,6 +169,7 @@ StatusSet(kind, hs, sniAuthed, channel) ==
              "junk"      ... sends the hello, then bytes that are not TLS
              "silent"    ... never sends anything
              "partial"   ... sends all but the last bytes of the hello
+     via   : "tcp" | "quic"         TLS over TCP (HTTP/1.1, HTTP/2) or QUIC (HTTP/3; the handshake is completed)
      sniAuth : "pass" | "reject"    what the authenticator says about the credentials label
      kind, hs : the request (kind = "none": the client leaves after the handshake)          *)
 
@@ -160,7 +187,9 @@ VARIABLES scn, pc, log, conn, status, meta
 
 vars == << scn, pc, log, conn, status, meta >>
 
-Say(stmt, atoms) == log' = Append(log, [stmt |-> stmt, atoms |-> atoms])
+Ev(stmt, atoms)  == [stmt |-> stmt, atoms |-> atoms]
+Say(stmt, atoms) == log' = Append(log, Ev(stmt, atoms))
+SayAll(evs)      == log' = log \o evs
 End(c, st)       == pc' = "done" /\ conn' = c /\ status' = st
 
 Init ==
@@ -170,11 +199,22 @@ Init ==
 
 \* listen_tcp: TlsListener::listen under tls_handshake_timeout (peeks the hello)
 Peek ==
-    /\ pc = "accepted"
+    /\ pc = "accepted" /\ scn.via = "tcp"
     /\ IF scn.hello \in { "silent", "partial" }
          THEN Say("TLS handshake failed: <io error>", {}) /\ End("hello-timeout", 0)
          ELSE Say("TLS handshake complete, processing connection", {}) /\ pc' = "hello" /\ UNCHANGED << conn, status >>
     /\ UNCHANGED << scn, meta >>
+
+\* quic_multiplexer / on_new_quic_connection: `select` on the name of the QUIC handshake, the rules, the meta
+QuicAccept ==
+    /\ pc = "accepted" /\ scn.via = "quic"
+    /\ LET m == Select(CfgOf(scn), scn.alpn, scn.sni) IN
+       /\ meta' = m
+       /\ IF scn.sni = << >> \/ ~m.ok THEN Say("<QUIC connection not accepted>", {}) /\ End("demux-reject", 0)
+          ELSE IF scn.src = "denied" THEN Say("Connection denied by filtering rules for IP: <ip>", { "ip" }) /\ End("denied", 0)
+          ELSE SayAll(<< Ev("New QUIC connection", {}), Ev("Connection meta: <meta>", MetaDebug(scn.sni, m)) >>)
+               /\ pc' = "channel" /\ UNCHANGED << conn, status >>
+    /\ UNCHANGED scn
 
 \* on_new_tls_connection: the name, through scrub_sni
 Sni ==
@@ -218,16 +258,18 @@ Channel ==
          ELSE Say("Routing to channel: <channel>", { meta.channel }) /\ pc' = "request" /\ UNCHANGED << conn, status >>
     /\ UNCHANGED << scn, meta >>
 
-\* HttpDownstream::listen / the ping handler: the request head, through scrub_request
+\* HttpDownstream::listen / the handlers of the other channels: the request head, through scrub_request;
+\* on the tunnel channel the request may leave by its path (Route)
 Request ==
     /\ pc = "request"
     /\ IF scn.kind = "none" THEN Say("Tunnel closed gracefully", {}) /\ End("established", 0)
        ELSE IF scn.kind = "badSyntax" THEN
-            \E st \in StatusSet(scn.kind, scn.hs, SniAuthed, meta.channel) :
+            \E st \in StatusSet(CfgOf(scn), meta.proto, scn.kind, scn.hs, SniAuthed, meta.channel) :
                 Say("Tunnel listen error: <codec error>", {}) /\ End("established", st)
        ELSE Say("Received request: <scrub_request>", Vals(ScrubRequest(scn.hs)) \cup { scn.kind })
-            /\ pc' = (IF meta.channel = "ping" \/ IsPing(scn.hs) THEN "ping"
-                      ELSE IF meta.channel \in { "speed", "rproxy" } THEN meta.channel ELSE "auth") /\ UNCHANGED << conn, status >>
+            /\ LET served == Served(CfgOf(scn), meta.proto, scn.kind, scn.hs, meta.channel) IN
+               pc' = (IF served = "tunnel" THEN "auth" ELSE served)
+            /\ UNCHANGED << conn, status >>
     /\ UNCHANGED << scn, meta >>
 
 Ping ==
@@ -236,18 +278,37 @@ Ping ==
     /\ End("established", 200)
     /\ UNCHANGED << scn, meta >>
 
-\* http_speedtest_handler: a request that is no speed test
+\* http_speedtest_handler: listen_inner, run_download_test, run_upload_test
 Speed ==
     /\ pc = "speed"
-    /\ Say("Invalid request: <description>", {})
-    /\ End("established", 400)
+    /\ CASE scn.kind = "speedGet" ->
+              SayAll(<< Ev("Received request: <scrub_request>", Vals(ScrubRequest(scn.hs))), Ev("Running download test", {}),
+                        Ev("Error on stream: error=<io error>, remaining unsent <n> bytes", {}) >>) /\ End("established", 200)
+         [] scn.kind = "speedUpload" ->
+              /\ SayAll(<< Ev("Received request: <scrub_request>", Vals(ScrubRequest(scn.hs))), Ev("Running upload test", {}),
+                           Ev("Stream closed, remaining unreceived <n> bytes", {}) >>)
+              /\ \E st \in { 0, 200 } : End("established", st)
+         [] OTHER ->
+              SayAll(<< Ev("Received request: <scrub_request>", Vals(ScrubRequest(scn.hs))), Ev("Invalid request: <description>", {}) >>)
+              /\ End("established", 400)
     /\ UNCHANGED << scn, meta >>
 
-\* reverse_proxy::handle_stream: the translated request, through scrub_request again
+\* reverse_proxy::handle_stream and the "Request failed" line of listen_inner.  The handler is given the
+\* server name of the connection; for a request that came here by its path that is the name of the
+\* TUNNEL connection, credentials label included: no statement of the handler prints it.
 RProxy ==
     /\ pc = "rproxy"
-    /\ Say("Sending translated request: <scrub_request>", Vals(ScrubRequest(scn.hs)))
-    /\ End("established", 200)
+    /\ LET head == << Ev("Received request: <scrub_request>", Vals(ScrubRequest(scn.hs))),
+                     Ev("Connecting to origin server: <address>", { "address" }) >> IN
+       IF CfgOf(scn).origin = "down" THEN
+            /\ SayAll(head \o << Ev("Request failed: <connect error>", { "address" }) >>)
+            /\ \E st \in { 0, 502 } : End("established", st)
+       ELSE IF scn.kind = "rpGetClose" THEN
+            /\ SayAll(head \o << Ev("Sending translated request: <scrub_request>", Vals(ScrubRequest(scn.hs))),
+                                 Ev("Request failed: <unexpected end of file>", {}) >>)
+            /\ \E st \in { 0, 502 } : End("established", st)
+       ELSE SayAll(head \o << Ev("Sending translated request: <scrub_request>", Vals(ScrubRequest(scn.hs))) >>)
+            /\ End("established", 200)
     /\ UNCHANGED << scn, meta >>
 
 \* tunnel.rs: auth_info / authenticate; the error texts carry the request through scrub_request
@@ -265,14 +326,16 @@ Promote ==
     /\ CASE scn.kind = "check"         -> Say("Health check request completed", {})
          [] scn.kind = "checkGet"      -> Say("Unexpected request method: <scrub_request>", Vals(ScrubRequest(scn.hs)))
          [] scn.kind = "connectNoPort" -> Say("Unexpected authority port: request=<scrub_request>", Vals(ScrubRequest(scn.hs)))
-         [] scn.kind = "getOrigin"     -> Say("Authority not found: <scrub_request>", Vals(ScrubRequest(scn.hs)))
+         [] scn.kind \in { "getOrigin" } \cup RpKinds \cup SpeedKinds
+                                       -> Say("Authority not found / <connect error>: <scrub_request>", Vals(ScrubRequest(scn.hs)))
          \* TcpConnectionMeta: auth kind with the placeholder, tls_domain through scrub_sni
          [] scn.kind \in { "connect", "getAbs" } -> Say("Successfully connected to <tcp meta>", Range(ScrubSni(scn.sni)) \cup { Placeholder })
          [] OTHER                      -> Say("<connect error>: <tcp meta>", Range(ScrubSni(scn.sni)) \cup { Placeholder })
-    /\ IF scn.kind = "getOrigin" THEN \E st \in { 400, 502 } : End("established", st) ELSE End("established", PassStatus(scn.kind))
+    /\ IF scn.kind \in { "getOrigin" } \cup RpKinds \cup SpeedKinds THEN \E st \in { 0, 400, 502 } : End("established", st)
+       ELSE End("established", PassStatus(scn.kind))
     /\ UNCHANGED << scn, meta >>
 
-Next == Peek \/ Sni \/ Rules \/ Demux \/ TlsAccept \/ Channel \/ Request \/ Ping \/ Speed \/ RProxy \/ Auth \/ Promote
+Next == QuicAccept \/ Peek \/ Sni \/ Rules \/ Demux \/ TlsAccept \/ Channel \/ Request \/ Ping \/ Speed \/ RProxy \/ Auth \/ Promote
 
 Spec == Init /\ [][Next]_vars
 
@@ -300,7 +363,8 @@ CredsRecognised ==
 \* what the harness is told to expect: the end of the connection and the set of final statuses
 ConnOutcome(s) ==
     LET c == CfgOf(s) m == Select(c, s.alpn, s.sni) IN
-    IF s.hello \in { "silent", "partial" } THEN "hello-timeout"
+    IF s.via = "quic" THEN (IF s.sni = << >> \/ ~m.ok THEN "demux-reject" ELSE IF s.src = "denied" THEN "denied" ELSE "established")
+    ELSE IF s.hello \in { "silent", "partial" } THEN "hello-timeout"
     ELSE IF s.sni = << >> THEN "no-sni"
     ELSE IF s.src = "denied" THEN "denied"
     ELSE IF ~m.ok \/ m.proto = "h3" THEN "demux-reject"
@@ -312,7 +376,7 @@ Statuses(s) ==
     LET c == CfgOf(s) m == Select(c, s.alpn, s.sni) IN
     IF ConnOutcome(s) # "established" \/ s.kind = "none" THEN { 0 }
     ELSE IF m.creds # NoCreds /\ s.sniAuth = "reject" /\ m.channel = "tunnel" THEN { 0 }
-    ELSE StatusSet(s.kind, s.hs, m.creds # NoCreds /\ s.sniAuth = "pass", m.channel)
+    ELSE StatusSet(c, m.proto, s.kind, s.hs, m.creds # NoCreds /\ s.sniAuth = "pass", m.channel)
 
 \* the behaviours end where the functions above say
 OutcomeAgrees == pc = "done" => (conn = ConnOutcome(scn) /\ status \in Statuses(scn))
